@@ -726,7 +726,8 @@ def formula_grammar(table):
 
     # Convert "(composite) count" to a pair
     opengrp = space + Literal('(').suppress() + space
-    closegrp = space + Literal(')').suppress() + space
+    # Note: no space after ")" so that "(HO) 3Fe" is (HO) + 3Fe rather than (HO)3 + Fe.
+    closegrp = space + Literal(')').suppress()
     explicit_group = opengrp + composite + closegrp + count
     def convert_explicit(string, location, tokens):
         """convert (fragment)count"""
